@@ -152,6 +152,7 @@ def run(ctx, rep):
     cursor(ctx, rep)
     wiresig(ctx, rep)
     uniqueid(ctx, rep)
+    markkeep(ctx, rep, tab)
     from ..predsig import run_predsig
     rep.rules_text.append("PREDSIG: for every prediction scheme with an encoder and a decoder class, the backward slice of the predicted value handed to the transform (ComputeCorrection / ComputeOriginalValue) uses the same set of (operation, width[, constant]) on both sides, and every shared helper in the decoder's slice is in the encoder's")
     n_ps = run_predsig(ctx, rep)
@@ -320,3 +321,45 @@ def uniqueid(ctx, rep):
                                "the id they were encoded with", control=is_ctl))
     rep.floor("UNIQUEID: decoder-layer AddAttribute sites", n_real, 1)
     rep.control("UNIQUEID", "uniqueid_bad", fired, "missing restore of the decoded unique id must be reported")
+
+
+def markkeep(ctx, rep, tab):
+    """MARKKEEP: protocol marks set through a dedicated method keep a closed set of writers."""
+    from ..taint import ASSIGN_OPS
+    F = ctx.F
+    rep.rules_text.append(
+        "MARKKEEP: a protocol mark that another object sets through a dedicated method at a point of the set-up "
+        "that depends on attribute order (SequentialAttributeEncoder::is_parent_encoder_ via MarkParentAttribute) is "
+        "written only by that method and the constructor: a reset elsewhere silently drops the mark for some orders")
+    n = 0
+    for ent in tab.get("protocol_fields", []):
+        cls, fld = ent["class"], ent["field"]
+        if cls not in F.classes:
+            raise AnalysisBroken("MARKKEEP: class %s not found" % cls)
+        writers = {}
+        for fn in F.fns.values():
+            if not fn.cls or strip_targs(fn.cls) != cls:
+                continue
+            for b, ev in fn.events():
+                if ev.get("k") == "minit" and ev.get("field") == fld:
+                    writers.setdefault(fn.base, fn.loc)
+            for b, rk, tree, ev in fn.roots():
+                if tree is None:
+                    continue
+                for x in walk(tree):
+                    if x.get("k") == "bin" and x.get("op") in ASSIGN_OPS:
+                        l = x.get("l")
+                        while isinstance(l, dict) and l.get("k") in ("icast", "cast", "paren"):
+                            l = l.get("e")
+                        if isinstance(l, dict) and l.get("k") == "field" and l.get("n") == fld and \
+                                strip_targs(l.get("cls") or "") == cls:
+                            writers.setdefault(fn.base, fn.site(x.get("loc", "") or ev.get("loc", "")))
+        if not writers:
+            raise AnalysisBroken("MARKKEEP: no writer of %s::%s found" % (cls, fld))
+        for w, site in sorted(writers.items()):
+            ok = w in ent["allowed_writers"]
+            n += 1
+            rep.add(Obligation("MARKKEEP", w, "writes %s" % fld, site, DISCHARGED if ok else VIOLATION, trivial=ok,
+                               detail="the dedicated setter / constructor" if ok else
+                               "a new writer of the protocol mark %s::%s: %s" % (cls.replace("draco::", ""), fld, ent["why"])))
+    rep.floor("writers of protocol marks", n, 1)
